@@ -5,7 +5,7 @@ from props.common import gen_strategy, quiet_logging, Violations
 from worlds.full import FullWorld
 
 ID = 'C41'
-TIERS = {'quick': {'runs': 6000, 'budget_s': 50, 'wall_cap': 90, 'block': 100},
+TIERS = {'quick': {'runs': 18000, 'budget_s': 50, 'wall_cap': 90, 'block': 100},
          'thorough': {'runs': 600000, 'budget_s': 840, 'wall_cap': 90, 'block': 100}}
 SHRINK_LISTS = []
 COVERAGE_RULE = ('one run = real Cluster.connect() against 1-3 fake nodes (all contact points); each node supports a drawn subset '
